@@ -127,10 +127,23 @@ PlanOf(x) ==
     [] p = "groupleft" -> Join(a, Over(b, LAMBDA c : Agg("sum", TRUE, <<"a">>, <<c>>)), LAMBDA i, j : BinM("*", i, j, FALSE, "N:1", TRUE, <<"a">>, <<>>))
 
 ScnOf(x) == Scn("opt", "C09", TickMs, DataScn, PlanOf(x), 2, 5, 1, 2, 0)
+
+\* selectors with several matchers on the metric name (a family of metrics without one of them) next to a broader
+\* selector of the family: outside the exhaustive model (whose selectors have one name matcher), replayed in every tier
+NameRe == Re("__name__", "m|n", <<"m", "n">>)
+Family == << <<NameRe, Neq("__name__", "n")>>, <<NameRe, Neq("__name__", "m"), Eq("a", "x")>>, <<NameRe, NRe("__name__", "n", <<"n">>), Neq("b", "")>>,
+             <<NameRe, Eq("__name__", "m")>>, <<Eq("a", "x"), NameRe, Neq("__name__", "n")>> >>
+Broader == << <<NameRe>>, <<NameRe, Eq("a", "x")>>, <<Re("__name__", ".+", <<"m", "n">>)>> >>
+FamilyPlans == {Join(Over(<<[Blank("sel") EXCEPT !.m = Family[i]]>>, LAMBDA c : Agg("sum", TRUE, <<"a">>, <<c>>)),
+                     Over(<<[Blank("sel") EXCEPT !.m = Broader[j]]>>, LAMBDA c : Agg("sum", TRUE, <<"a">>, <<c>>)),
+                     LAMBDA a, b : BinM("/", a, b, FALSE, "1:1", TRUE, <<"a">>, <<>>)) : i \in 1..Len(Family), j \in 1..Len(Broader)}
+               \cup {Join(<<[Blank("sel") EXCEPT !.m = Broader[j]]>>, Over(<<[Blank("sel") EXCEPT !.m = Family[i]]>>, LAMBDA c : Agg("count", TRUE, <<>>, <<c>>)),
+                          LAMBDA a, b : BinM("*", a, b, FALSE, "N:1", TRUE, <<>>, <<>>)) : i \in 1..Len(Family), j \in 1..Len(Broader)}
+EmitFamily == \A p \in FamilyPlans : Emit(Scn("opt", "C09", TickMs, DataScn, p, 2, 5, 1, 2, 0) @@ [pin |-> TRUE])
 \* emit pairs on which a rewrite actually fires or which PropagateMatchers inspects and rejects, from the seeded residue class
 Fires(x) == Rewrite(x, S1(x)).merged \/ Rewrite(x, S2(x)).merged \/ Applies(x)
 \* ... and, at a third of that rate, pairs on which the model says NO rewrite fires (a change that
 \* makes a rewrite fire more often must be seen too)
-EmitOpt == IF ((Fires(g) \/ Shared(g)) /\ Hash(g) % Mod = Seed % Mod) \/ (~Fires(g) /\ ~Shared(g) /\ Hash(g) % (3 * Mod) = Seed % (3 * Mod))
+EmitOpt == (g # [n1 |-> "m", m1 |-> <<>>, n2 |-> "m", m2 |-> <<>>] \/ EmitFamily) /\ IF ((Fires(g) \/ Shared(g)) /\ Hash(g) % Mod = Seed % Mod) \/ (~Fires(g) /\ ~Shared(g) /\ Hash(g) % (3 * Mod) = Seed % (3 * Mod))
            THEN Emit(ScnOf(g)) ELSE TRUE
 =============================================================================
